@@ -57,6 +57,14 @@ Lemma ex_chain_errors :
   resolve ex_rq (RChain [RTrustedCount false 2; RChain [RTrustedRange true None; RTrustedCount true 9]])
   = Err [ECountInvalid; ERangeResolver; ECountFewer].
 Proof. vm_compute. reflexivity. Qed.
+(* the pre-fix witnesses of the empty-chain defect *)
+Lemma ex_chain_empty : resolve ex_rq (RChain []) = Err [EChainEmpty].
+Proof. vm_compute. reflexivity. Qed.
+Lemma ex_chain_nested_empty :
+  resolve {| xff := []; forwarded := []; single := []; remote := S2B "1.2.3.4:1" |} (RChain [RChain []; RRemoteAddr])
+  = Ok (a4 1 2 3 4).
+Proof. vm_compute. reflexivity. Qed.
+
 (* the lazy iterators really stop early: a consumer that stops at the first element sees one element *)
 Lemma ex_lazy :
   backward_ip_addr_seq addr parse_ip_addr false (xff ex_rq) (list (option (option addr)))
